@@ -119,9 +119,9 @@ pub fn test_case(case: &ModelCase) -> TestResult {
 }
 
 pub fn run(rep: &mut Report) {
-    let n = rep.n(1500, 60000);
+    let n = rep.n(15000, 150000);
     rep.run_prop("model-text", RULE, n, || model_case(ModelCfg::BOUNDARY), test_case);
-    let n = rep.n(800, 30000);
+    let n = rep.n(8000, 80000);
     rep.run_prop(
         "model-text-tagmodels",
         "same oracle on models that also carry tag models, so that predict_tags=true routes \
